@@ -55,6 +55,8 @@ Definition okp (x : plocal) : bool :=
                          && (negb (q_buf x) || pview_eqb v PVErrsReady))
   && implb (ppcl_eqb p QP0 || ppcl_eqb p QAtSel) (pview_eqb v PVOther && negb (q_closed x) && negb (q_buf x))
   && implb (ppcl_eqb p QWait) (p_active v || q_closed x)
+  && implb (p_active v && negb (pview_eqb v PVErrsReady)) (ppcl_eqb p QWait)
+  && implb (ppcl_eqb p QRet) (negb (q_buf x))
   && implb (q_buf x) (pview_eqb v PVErrsReady || q_closed x).
 
 Definition all_pview := [PVOther; PVGotMsg; PVPutOk; PVPutErr; PVErrsReady; PVPanicked].
